@@ -24,21 +24,21 @@ ASSUMPTIONS = [
 ]
 
 VAL = st.one_of(st.none(), st.integers(0, 3), st.sampled_from(["", "ab", "a b"]), st.lists(st.integers(0, 2), max_size=3),
-                st.just({"nested": [None, 0]}))
+                st.just({"nested": [None, 0]}), st.just("<ANY>"))       # "<ANY>" stands for unittest.mock.ANY (equal to everything)
 CB = st.sampled_from(["pass", "wrap", "to_none", "raise", "recover", "log", "pause"])
 EXC = st.sampled_from(["ValueError", "RuntimeError", "KeyError", "CustomError", "KeyboardInterrupt", "CustomBase"])
 
 
 @st.composite
 def s_deferred(draw):
-    return {"state": draw(st.sampled_from(["value", "failure", "unfired", "value", "failure"])),
+    return {"state": draw(st.sampled_from(["value", "failure", "unfired", "value", "failure", "paused-value", "paused-failure"])),
             "value": draw(VAL), "exc": draw(EXC), "callbacks": draw(st.lists(CB, max_size=3))}
 
 
 def model_chain(spec, full=False):
     """-> ("none",) | ("value", v) | ("failure", exc_name) [+ message when full]"""
-    if spec["state"] == "unfired":
-        return ("none",)
+    if spec["state"] == "unfired" or spec["state"].startswith("paused"):
+        return ("none",)        # a paused Deferred holds a result it is not delivering: it has no result yet
     cur = ("value", spec["value"]) if spec["state"] == "value" else ("failure", spec["exc"], "boom-" + spec["exc"])
     for cb in spec["callbacks"]:
         if cur[0] == "value":
@@ -56,6 +56,22 @@ def model_chain(spec, full=False):
     if cur[0] == "failure" and not full:
         return cur[:2]
     return cur
+
+
+def live_val(v):
+    if v == "<ANY>":
+        from unittest import mock
+        return mock.ANY
+    return v
+
+
+def same_val(got, want):
+    """Equality that is not fooled by objects that equal everything."""
+    if want == "<ANY>":
+        from unittest import mock
+        return got is mock.ANY
+    from unittest import mock
+    return got is not mock.ANY and got == want
 
 
 def make_deferred(spec, log):
@@ -78,9 +94,11 @@ def make_deferred(spec, log):
             d.addErrback(lambda f: "recovered")
         elif cb == "pause":
             d.addCallback(lambda v: defer.Deferred())
-    if spec["state"] == "value":
-        d.callback(spec["value"])
-    elif spec["state"] == "failure":
+    if spec["state"].startswith("paused"):
+        d.pause()
+    if spec["state"] in ("value", "paused-value"):
+        d.callback(live_val(spec["value"]))
+    elif spec["state"] in ("failure", "paused-failure"):
         try:
             raise ML.EXC_CLASSES[spec["exc"]]("boom-" + spec["exc"])
         except BaseException:
@@ -149,6 +167,8 @@ def s_case(draw):
 
 
 def _value_in_domain(v, dom):
+    if v == "<ANY>":
+        return False        # stands for mock.ANY, which is in no matcher's domain
     return (dom == "int" and isinstance(v, int) and not isinstance(v, bool)) or (dom == "str" and isinstance(v, str)) or \
         (dom == "list" and isinstance(v, list) and all(isinstance(x, int) for x in v))
 
@@ -231,7 +251,8 @@ def run_case(spec):
             if isinstance(e, (MemoryError, RecursionError)):
                 raise
             r = ("failure", type(e).__name__)
-        if r != state:
+        ok_r = (r[0] == state[0]) and (same_val(r[1], state[1]) if r[0] == "value" else r == state)
+        if not ok_r:
             vs.append(V("extract_result", "on-" + kind, "extract_result gave %r, state is %r" % (r, state)))
         d.addErrback(lambda f: None)
         del d
@@ -243,13 +264,13 @@ def run_case(spec):
                 seen = []
                 if kind == "value":
                     d.addCallback(seen.append)
-                    if seen != [state[1]]:
+                    if not (len(seen) == 1 and same_val(seen[0], state[1])):
                         vs.append(V("intact", name + "-value", "after %s().match a new callback saw %r, original result %r" % (name, seen, state[1])))
                 elif ds["state"] == "unfired" and spec["after"] in ("fire", "add_callback"):
                     d.addCallback(seen.append)
-                    d.callback(spec["deferred"]["value"])
+                    d.callback(live_val(spec["deferred"]["value"]))
                     after_model = model_chain(dict(ds, state="value"))
-                    if after_model[0] == "value" and seen != [after_model[1]]:
+                    if after_model[0] == "value" and not (len(seen) == 1 and same_val(seen[0], after_model[1])):
                         vs.append(V("intact", name + "-unfired", "match-then-fire: callback saw %r, expected %r" % (seen, after_model[1])))
                     d.addErrback(lambda f: None)
         # --- a passive probe leaves the Deferred as it was: has_no_result() first, then the matcher for its state
@@ -264,7 +285,7 @@ def run_case(spec):
             again = succeeded(tm.Always()).match(d) is None and succeeded(tm.Always()).match(d) is None
             seen = []
             d.addCallback(seen.append)
-            if not again or seen != [state[1]]:
+            if not again or not (len(seen) == 1 and same_val(seen[0], state[1])):
                 vs.append(V("intact", "probe-then-succeeded", "after has_no_result() and succeeded() twice: matches=%r, later callback saw %r, original %r" % (again, seen, state[1])))
         elif ds["state"] == "unfired":
             seen, errs = [], []
